@@ -119,6 +119,8 @@ def o_repeat_noop(rec, world, hist):
     if len(hist.records) < 2:
         return out
     prev = hist.records[-2]
+    if prev.idx != rec.idx - 1:
+        return out  # (a minimised history may have lost the run this one repeats: nothing to compare with)
     if prev.exc is not None or prev.aborted or rec.exc is not None or faulty(prev.op):
         return out
     if ref.out_of_date(world, prev.mtimes_before, fresh=prev.fresh_instant)[1]:
